@@ -65,6 +65,9 @@ def operand_name(fn, operand):
 
 
 def div_names(fn, block_id, stmt_idx):
-    st = fn.block_by_id[block_id]["stmts"][stmt_idx]
-    rv = st["rv"]
-    return operand_name(fn, rv["a"]), operand_name(fn, rv["b"])
+    try:
+        st = fn.block_by_id[block_id]["stmts"][stmt_idx]
+        rv = st["rv"]
+        return operand_name(fn, rv["a"]), operand_name(fn, rv["b"])
+    except (KeyError, IndexError, TypeError):
+        return "1.0", "<the receiver of recip()>"   # a division that is not a `/` statement (`x.recip()`)
